@@ -13,7 +13,7 @@ import json
 import hostlib as H
 import vlib
 
-THEOREMS = ["C16_terminates", "C16_fuel_bound", "C16_session_terminates", "C16_reach", "C16_links", "C16_notfound", "C16_once", "C16_index_terminates"]
+THEOREMS = ["C16_terminates", "C16_fuel_bound", "C16_session_terminates", "C16_reach", "C16_links", "C16_notfound", "C16_all_entered", "C16_once", "C16_index_terminates"]
 TRUSTED = [
     "Coq 8.16.1 kernel (vm_compute only inside Examples)",
     "abstraction of the parse: a text is represented by its Include/Class descendants in document order "
@@ -208,6 +208,13 @@ def run(ctx):
     cases, exhaustive, nrand = gen_cases(ctx)
     cases.sort(key=H.case_size)
     res, viol, ties = check_cases(ctx, bindir, exe, cases, "gen")
+    # extraction cross-check: a slice of the batch evaluated by vm_compute inside Coq vs the extracted program
+    if H.LAST_BATCH:
+        nx, xbad = H.crosscheck_last_batch(40 if ctx.quick else 150)
+        ctx.cov["extraction_crosschecked_in_coq"] = nx
+        if xbad:
+            fails.append({"kind": "extraction-crosscheck", "file": "extracted host_run differs from vm_compute of TG.Model.HostInst.run_digests",
+                          "detail": xbad[:3]})
     # coverage
     distinct, counters, samples = set(), {}, []
     absmap = H._ABS
